@@ -40,11 +40,11 @@ def cases(ctx):
                                "pos": list(pos) if pos else None, "base": codec.rand_values(rng, kinds)}
     # user-defined flavours: one Flavour subclass instantiated for different devices (different instruction lists), and a
     # flavour object extended after construction - each must print/parse with its OWN instruction set
-    for i in range(ctx.n(4, 60)):
+    for i in range(ctx.n(4, 2000)):
         k += 1
         if ctx.mine(k):
             yield {"kind": "custom-flavour", "flavour": "vanilla", "seed": rng.randrange(2**31)}
-    for _ in range(ctx.n(300, 20000)):
+    for _ in range(ctx.n(300, 200000)):
         flav = rng.choice(["vanilla", "nv", "reids"])
         names = sorted(isa.TABLE[flav])
         ins = []
